@@ -331,6 +331,26 @@ def run_blocked(desc, seed):
                             sup = np.abs(U[:, j]) > 1e-12
                             if np.any(np.any(side[sup] != qa[j], axis=-1)):
                                 add(f"C18:blocked:eigh-{system}:label-support", f"{where}: column {j} label {qa[j].tolist()} vs support {side[sup].tolist()}")
+                        # only sectors that have a partner on the other side are symmetry-allowed: one column per allowed basis state,
+                        # every returned label has its partner, and a density matrix WITH weight in forbidden sectors is projected
+                        other = qr if system == "L" else ql
+                        totv = np.asarray(tot).reshape(-1)
+                        has_partner = np.array([np.any(np.all(other == (totv - lab), axis=-1)) for lab in side])
+                        if U.shape[1] != int(has_partner.sum()):
+                            add(f"C18:blocked:eigh-{system}:column-count", f"{where}: {U.shape[1]} columns returned, {int(has_partner.sum())} symmetry-allowed basis states")
+                        for j in range(len(qa)):
+                            if not np.any(np.all(other == (totv - qa[j]), axis=-1)):
+                                add(f"C18:blocked:eigh-{system}:label-without-partner", f"{where}: returned label {qa[j].tolist()} has no partner on the other side (total {totv.tolist()})")
+                                break
+                        dmf = Cc @ Cc.conj().T if system == "L" else Cc.T @ Cc.conj()
+                        blk = has_partner[:, None] & has_partner[None, :] & np.all(side[:, None, :] == side[None, :, :], axis=-1)
+                        try:
+                            U2, S2, _ = sq.eigh_qn(dmf.copy(), ql, qr, tot, system)
+                            rec2 = (U2 * S2 ** 2) @ U2.conj().T
+                            if not close(rec2, np.where(blk, dmf, 0), 1e-8, floor=1e-12):
+                                add(f"C18:blocked:eigh-{system}:projection", f"{where}: U S^2 U^+ of an unrestricted density matrix differs from its symmetry-allowed part by rel {rel_err(rec2, np.where(blk, dmf, 0)):.2e}")
+                        except Exception as e:
+                            add(f"C18:blocked:eigh-{system}:exception:{type(e).__name__}", f"{where} (unrestricted density matrix): {e!r}")
     return {"nt_count": nt, "counters": {"decompositions": ndecomp}, "outcome": f"blocked:{l}x{r}:{alpha}:{'viol' if viol else 'ok'}",
             "viol": list(viol.values()), "sample": {"desc": desc, "first_left_pattern": list(lpats[0])}}
 
